@@ -7,7 +7,8 @@ cd /repo || exit 2
 if ! git diff --quiet; then echo "repo dirty"; exit 2; fi
 git apply "/verif/seeded/$d/patch.diff" || { echo "patch does not apply"; exit 2; }
 trap 'cd /repo && git checkout -- . && git clean -fdq' EXIT
-cd /verif && /verif/bin/gosym check "$id" --tier "$tier" > "/tmp/seedtest-$d-$id.log" 2>&1
+cp /verif/evidence/$id.json /tmp/evidence-backup-$id.json 2>/dev/null; cd /verif && /verif/bin/gosym check "$id" --tier "$tier" > "/tmp/seedtest-$d-$id.log" 2>&1
 rc=$?
+cp /tmp/evidence-backup-$id.json /verif/evidence/$id.json 2>/dev/null
 grep -E "^(VIOLATION|KNOWN-FINDING|INCONCLUSIVE|ENCODING-MISMATCH|OK)" "/tmp/seedtest-$d-$id.log" | head -8
 echo "exit=$rc"
